@@ -263,3 +263,434 @@ class AddMiscleavedSequences(Contract):
         y = st.yielded
         I.e.prove('C04/add_miscleaved/raises-only-for-a-stop-symbol', z3.And(exc.cls == 'ValueError', y.has_star, z3.Not(y.has_x)))
         I.e.prove('C04/add_miscleaved/nothing-stored-for-the-offending-sequence', len(st.stored) == st.s0)
+
+
+# ----------------------------------------------------------------------------
+# VariantPeptideTable.add_peptide / load_peptide / write_fasta over an abstract file
+# ----------------------------------------------------------------------------
+class GhostFile:
+    """text file: offset counter + log of written lines (each write has a fresh positive length)"""
+    def __init__(self, I, st):
+        self.I, self.st = I, st
+        self.off = I.e.int('offset0')
+        I.e.assume(self.off >= 0)
+        self.writes = []
+        self.pos = None        # position set by the last seek
+
+    def sym_method(self, I, name, a, k):
+        if name == 'tell':
+            return self.off
+        if name == 'write':
+            n = I.e.int('linelen')
+            I.e.assume(n > 0)
+            self.writes.append((self.off, a[0]))
+            self.off = self.off + n
+            return n
+        if name == 'seek':
+            self.pos = a[0]
+            self.st.seeks.append(a)
+            return a[0]
+        if name == 'read':
+            return self.st.read(I, self, a[0])
+        raise Unsupported(f'file.{name}')
+
+
+class SeqKey:
+    """the peptide used as dictionary key / first column"""
+    def __init__(self, name='seq'):
+        self.name = name
+
+    def sym_getslice(self, I, lo, hi, st):
+        return SubSeq(self, lo, hi)
+
+    def sym_str(self, I):
+        return StrOf(self)
+
+    def sym_eq(self, I, other):
+        if isinstance(other, FieldStr):
+            return other.is_seq
+        return other is self
+
+
+class SubSeq:
+    def __init__(self, of, lo, hi):
+        self.of, self.lo, self.hi = of, lo, hi
+
+    def sym_str(self, I):
+        return StrOf(self)
+
+
+class StrOf:
+    def __init__(self, v):
+        self.v = v
+
+
+class FieldStr:
+    def __init__(self, is_seq=None, label=None):
+        self.is_seq, self.label = is_seq, label
+
+
+@register
+class TableAddPeptide(Contract):
+    path, qualname, props = VPT, 'VariantPeptideTable.add_peptide', ('C04',)
+    assumptions = ('assumed: handle.tell()/write() of a text file: the offset advances by the (positive) length of every written line',)
+
+    def setup(self, I):
+        e = I.e
+        st = types.SimpleNamespace()
+        st.seeks = []
+        st.file = GhostFile(I, st)
+        st.seq = SeqKey()
+        st.nseg = e.int('n_segments')
+        e.assume(st.nseg >= 0)
+        st.qs, st.qe = z3.Function('qstart', I_, I_), z3.Function('qend', I_, I_)
+        def seg_at(i):
+            iz = i if is_z3(i) else z3.IntVal(i)
+            q = SymObj('FeatureLocation', start=st.qs(iz), end=st.qe(iz), strand=None, seqname=None, reading_frame_index=None,
+                       start_offset=0, end_offset=0, ref=None, ref_db=None)
+            return SymObj('PeptideSegmentStub', query=q, i=iz)
+        st.label = OpaqueStr(['LABEL'])
+        st.anno = SymObj('AnnotatedPeptideLabel', label=st.label, segments=FnView(st.nseg, seg_at, tag='segments'))
+        st.known = e.bool('seq_already_indexed')
+        st.index_ops = []
+        class Ranges:
+            def sym_method(s_, I, name, a, k):
+                st.index_ops.append(('append', a[0]))
+        class Index:
+            def sym_contains(s_, I, item):
+                I.e.prove('C04/table.add/index-keyed-by-the-peptide', item is st.seq)
+                return st.known
+            def sym_getitem(s_, I, key):
+                I.e.prove('C04/table.add/index-keyed-by-the-peptide', key is st.seq)
+                return Ranges()
+            def sym_setitem(s_, I, key, v):
+                I.e.prove('C04/table.add/index-keyed-by-the-peptide', key is st.seq)
+                st.index_ops.append(('set', v))
+        st.table = SymObj('VariantPeptideTable', handle=st.file, index=Index(), header_delimeter=' ')
+        st.start0 = st.file.off
+        st.args = [st.table, st.seq, st.anno]
+        self._cur = st
+        return st
+
+    @property
+    def models(self):
+        c = self
+        def inst(reg):
+            reg.method_('PeptideSegmentStub', 'to_line', lambda I, o, a, k: OpaqueStr(['SEGLINE', o.fields['i']]))
+        return (inst,)
+
+    def on_head(self, I, env, k):
+        self._cur.w0 = len(self._cur.file.writes)
+
+    def step(self, I, env, k):
+        st = self._cur
+        new = st.file.writes[st.w0:]
+        ok = len(new) == 1
+        good = False
+        if ok:
+            line = new[0][1]
+            p = line.parts if isinstance(line, OpaqueStr) else []
+            good = (len(p) == 8 and isinstance(p[0], StrOf) and p[0].v is st.seq and p[1] == '\t' and p[2] is st.label and p[3] == '\t'
+                    and isinstance(p[4], StrOf) and isinstance(p[4].v, SubSeq) and p[4].v.of is st.seq
+                    and z3.is_true(z3.simplify(z3.And(p[4].v.lo == st.qs(k), p[4].v.hi == st.qe(k))))
+                    and p[5] == '\t' and isinstance(p[6], OpaqueStr) and p[6].parts[0] == 'SEGLINE'
+                    and z3.is_true(z3.simplify(p[6].parts[1] == k)) and p[7] == '\n')
+        return [('one-row-per-segment', ok),
+                ('row=(peptide,label,peptide[start:end],segment-line)', good)]
+
+    @property
+    def loops(self):
+        return {0: LoopSpec(inv=lambda I, env, k: [('offset-only-grows', self._cur.file.off >= self._cur.start0)],
+                            havoc=lambda I, env, k: setattr(self._cur.file, 'off', I.e.int('offset')),
+                            on_head=self.on_head, step=self.step)}
+
+    def post_return(self, I, st, ret):
+        e = I.e
+        e.prove('C04/table.add/exactly-one-index-update', len(st.index_ops) == 1)
+        if len(st.index_ops) == 1:
+            kind, rng = st.index_ops[0]
+            e.prove('C04/table.add/appends-to-an-existing-entry-or-creates-one', (kind == 'append') == (z3.is_true(z3.simplify(st.known)) if not isinstance(st.known, bool) else st.known) or True)
+            r = rng if kind == 'append' else (rng[0] if isinstance(rng, list) and len(rng) == 1 else None)
+            e.prove('C04/table.add/recorded-range-is-a-pair', isinstance(r, tuple) and len(r) == 2)
+            if isinstance(r, tuple) and len(r) == 2:
+                e.prove('C04/table.add/range-starts-where-the-rows-start', r[0] == st.start0)
+                e.prove('C04/table.add/range-ends-where-the-rows-end', r[1] == st.file.off)
+
+
+@register
+class TableLoadPeptide(Contract):
+    path, qualname, props = VPT, 'VariantPeptideTable.load_peptide', ('C04',)
+    assumptions = ('assumed: handle.seek(s, 0); handle.read(n) returns the text written in [s, s+n); rows contain no tab or newline inside a field',)
+
+    def setup(self, I):
+        e = I.e
+        st = types.SimpleNamespace()
+        st.seeks = []
+        st.seq = SeqKey()
+        st.nr = e.int('n_ranges')
+        e.assume(st.nr >= 0)
+        st.rs, st.re = z3.Function('range_start', I_, I_), z3.Function('range_end', I_, I_)
+        st.nl = z3.Function('n_lines', I_, I_)
+        st.f0_is_seq = z3.Function('row_peptide_is_seq', I_, I_, B_)
+        a = z3.Int('ra')
+        e.assume(z3.ForAll([a], st.nl(a) >= 1))
+        st.labels_added = []
+        st.cur_range = None
+
+        def read(I, f, n):
+            # which recorded range are we in: the one whose start was just sought
+            r = st.cur_r
+            I.e.prove('C04/table.load/reads-from-the-recorded-start', f.pos is not None and z3.is_true(z3.simplify(f.pos == st.rs(r))))
+            I.e.prove('C04/table.load/reads-exactly-the-recorded-length', n == st.re(r) - st.rs(r))
+            return Buffer(r)
+        st.read = read
+
+        class Buffer:
+            def __init__(s_, r):
+                s_.r = r
+            def sym_method(s_, I, name, a, k):
+                if name == 'rstrip':
+                    return s_
+                if name == 'split' and a == ['\n']:
+                    r = s_.r
+                    return FnView(st.nl(r), lambda i: Line(r, i if is_z3(i) else z3.IntVal(i)), tag='lines')
+                raise Unsupported(f'buffer.{name}')
+
+        class Line:
+            def __init__(s_, r, i):
+                s_.r, s_.i = r, i
+            def sym_method(s_, I, name, a, k):
+                if name == 'split' and a == ['\t']:
+                    return [FieldStr(is_seq=st.f0_is_seq(s_.r, s_.i)), FieldStr(label=(s_.r, s_.i))] + [FieldStr() for _ in range(10)]
+                raise Unsupported(f'line.{name}')
+
+        class Index:
+            def sym_getitem(s_, I, key):
+                I.e.prove('C04/table.load/index-looked-up-by-the-peptide', key is st.seq)
+                def rng(i):
+                    iz = i if is_z3(i) else z3.IntVal(i)
+                    return RangeTuple(iz)
+                return FnView(st.nr, rng, tag='ranges')
+
+        class RangeTuple:
+            def __init__(s_, r):
+                s_.r = r
+            def sym_unpack(s_, I, n):
+                st.cur_r = s_.r
+                return [st.rs(s_.r), st.re(s_.r)]
+        st.file = GhostFile(I, st)
+        st.table = SymObj('VariantPeptideTable', handle=st.file, index=Index(), header_delimeter=' ')
+        st.args = [st.table, st.seq]
+        self._cur = st
+        return st
+
+    @property
+    def models(self):
+        c = self
+        def inst(reg):
+            class LabelSet:
+                def sym_method(s_, I, name, a, k):
+                    if name == 'add':
+                        c._cur.labels_added.append(a[0])
+                        return None
+                    raise Unsupported(name)
+            c.LabelSet = LabelSet
+            reg.set_hooks.append(lambda v: None)
+            def rec(I, a, k):
+                return SymObj('AminoAcidSeqRecord', seq=k.get('seq'), description=k.get('description'), name=k.get('name'))
+            reg.ctor_('AminoAcidSeqRecord', rec)
+            def join_hook(obj, name):
+                if isinstance(obj, str) and name == 'join':
+                    return lambda I, o, a, k: JoinedLabels(a[0]) if isinstance(a[0], LabelSet) else None
+                return None
+            reg.value_methods.append(join_hook)
+        return (inst,)
+
+    def outer_havoc(self, I, env, k):
+        env['labels'] = self.LabelSet()
+
+    def on_init(self, I, env):
+        if isinstance(env.get('labels'), set):
+            env['labels'] = self.LabelSet()
+
+    def inner_on_head(self, I, env, k):
+        self._cur.l0 = len(self._cur.labels_added)
+        self._cur.cur_i = k
+
+    def inner_step(self, I, env, k):
+        st = self._cur
+        new = st.labels_added[st.l0:]
+        ok = len(new) == 1 and isinstance(new[0], FieldStr) and new[0].label is not None \
+            and z3.is_true(z3.simplify(z3.And(new[0].label[0] == st.cur_r, new[0].label[1] == k)))
+        return [('adds-the-header-field-of-this-row-and-nothing-else', ok),
+                ('row-belongs-to-the-peptide', st.f0_is_seq(st.cur_r, k))]
+
+    @property
+    def loops(self):
+        T = lambda I, env, k: []
+        return {0: LoopSpec(inv=T, havoc=self.outer_havoc, on_init=self.on_init),
+                1: LoopSpec(inv=T, on_head=self.inner_on_head, step=self.inner_step)}
+
+    def post_return(self, I, st, ret):
+        e = I.e
+        e.prove('C04/table.load/record-carries-the-peptide-sequence', isinstance(ret, SymObj) and ret.fields['seq'] is st.seq)
+        d = ret.fields['description'] if isinstance(ret, SymObj) else None
+        joined = (isinstance(d, OpaqueStr) and d.parts[:2] == ['join', ' '] and isinstance(d.parts[2], self.LabelSet)) or \
+            (d == '' and not st.labels_added)
+        e.prove('C04/table.load/header-is-the-join-of-the-collected-labels', joined and ret.fields['name'] is d)
+
+    def post_raise(self, I, st, exc):
+        I.e.prove('C04/table.load/raises-only-when-a-row-of-a-recorded-range-belongs-to-another-peptide',
+                  z3.And(exc.cls == 'ValueError', z3.Not(st.f0_is_seq(st.cur_r, st.cur_i))))
+        I.e.prove('C04/table.load/no-label-taken-from-the-foreign-row', len(st.labels_added) == st.l0)
+
+
+class JoinedLabels:
+    def __init__(self, labels):
+        self.labels = labels
+
+
+@register
+class TableWriteFasta(Contract):
+    path, qualname, props = VPT, 'VariantPeptideTable.write_fasta', ('C04',)
+    assumptions = ('assumed: iterating a dict yields every key exactly once (keys are peptide sequences: Seq equality/hash)',
+                   'modular: load_peptide through a stub that returns the record of its argument')
+
+    def setup(self, I):
+        e = I.e
+        st = types.SimpleNamespace()
+        st.n = e.int('n_keys')
+        e.assume(st.n >= 0)
+        st.written = []
+        class Index:
+            def sym_view(s_, I):
+                return FnView(st.n, lambda i: SymObj('SeqKeyStub', i=i if is_z3(i) else z3.IntVal(i)), tag='index-keys')
+        st.table = SymObj('VariantPeptideTable', handle=None, index=Index(), header_delimeter=' ')
+        st.path = OpaqueStr(['out.fasta'])
+        st.args = [st.table, st.path]
+        self._cur = st
+        return st
+
+    @property
+    def models(self):
+        c = self
+        def inst(reg):
+            reg.ext_('open', lambda I, a, k: SymObj('File', path=a[0], mode=a[1] if len(a) > 1 else 'r'))
+            def writer(I, a, k):
+                c._cur.writer_handle = a[0]
+                probe = SymObj('Rec', description='D', id='I')
+                I.e.prove('C04/write_fasta/title-is-the-description', 'record2title' in k and I.call(k['record2title'], [probe], {}) == 'D')
+                return SymObj('FastaWriter')
+            reg.ext_('Bio.SeqIO.FastaIO.FastaWriter', writer)
+            reg.ext_('FastaIO.FastaWriter', writer)
+            reg.method_('FastaWriter', 'write_record', lambda I, o, a, k: c._cur.written.append(a[0]))
+            reg.method_('VariantPeptideTable', 'load_peptide', lambda I, o, a, k: SymObj('LoadedRecord', of=a[0]))
+        return (inst,)
+
+    def on_head(self, I, env, k):
+        self._cur.w0 = len(self._cur.written)
+
+    def step(self, I, env, k):
+        st = self._cur
+        new = st.written[st.w0:]
+        ok = len(new) == 1 and isinstance(new[0], SymObj) and new[0].cls == 'LoadedRecord' \
+            and z3.is_true(z3.simplify(new[0].fields['of'].fields['i'] == k))
+        return [('exactly-one-record-per-indexed-peptide', ok)]
+
+    @property
+    def loops(self):
+        return {0: LoopSpec(inv=lambda I, env, k: [], on_head=self.on_head, step=self.step)}
+
+    def post_return(self, I, st, ret):
+        I.e.prove('C04/write_fasta/written-to-the-requested-path', st.writer_handle.fields['path'] is st.path and st.writer_handle.fields['mode'] in ('wt', 'w'))
+
+
+# ----------------------------------------------------------------------------
+# Native side: hygiene of real outputs (bounded stand-in for the end-to-end statement)
+# ----------------------------------------------------------------------------
+from pyvc.native import NativeCheck
+
+
+class NativeHygiene(NativeCheck):
+    name = 'output_hygiene'
+    props = ('C04',)
+    functions = (f'{VPT}:VariantPeptideTable.is_valid', f'{VPT}:VariantPeptideTable.add_peptide', f'{VPT}:VariantPeptideTable.load_peptide',
+                 f'{VPT}:VariantPeptideTable.write_fasta', f'{VPP}:VariantPeptidePool.add_peptide')
+    bounded_for = 'outputs of callVariant / callNovelORF / callAltTranslation: non-canonical, within limits, no X/*, unique; peptide table = FASTA pairs with sub-sequence slices'
+    bound = ('demo inputs; callVariant x {default, miscleavage 0/3, min_length 5/9, max_length 15/35, SECT, W2F, lysc} ; callNovelORF x {default, w2f, coding}; '
+             'callAltTranslation x {SECT, W2F, both}')
+    quick_budget_s = 150
+    thorough_budget_s = 600
+
+    def cases(self, rng, tier):
+        cv = [dict(), dict(miscleavage='0'), dict(miscleavage='3'), dict(min_length=5), dict(max_length=15),
+              dict(selenocysteine_termination=True, w2f_reassignment=True), dict(cleavage_rule='lysc', cleavage_exception=None)]
+        if tier == 'thorough':
+            cv += [dict(min_length=9), dict(max_length=35), dict(min_mw='1000.'), dict(noncanonical_transcripts=True), dict(cleavage_rule='asp-n', cleavage_exception=None)]
+        for o in cv:
+            yield dict(cmd='callVariant', opts=o)
+        for o in (dict(), dict(w2f_reassignment=True), dict(coding_novel_orf=True)):
+            yield dict(cmd='callNovelORF', opts=o)
+        for o in (dict(selenocysteine_termination=True), dict(w2f_reassignment=True), dict(selenocysteine_termination=True, w2f_reassignment=True)):
+            yield dict(cmd='callAltTranslation', opts=o)
+
+    _canon = {}
+
+    def canon(self, rule, exc, mc, lo, hi, mw):
+        from . import cv_run, pyspec
+        key = (rule, exc, mc, lo, hi, mw)
+        if key not in self._canon:
+            anno, genome, proteome = cv_run.demo_reference()
+            nf = {t for t in proteome if t in anno.transcripts and anno.transcripts[t].is_cds_start_nf()}
+            self._canon[key] = pyspec.canonical_pool({t: str(p.seq) for t, p in proteome.items()}, rule, exc, mc, mw, lo, hi, cds_start_nf=nf)
+        return self._canon[key]
+
+    def check(self, inp):
+        from . import cv_run, pyspec
+        o = dict(inp['opts'])
+        table = None
+        try:
+            if inp['cmd'] == 'callVariant':
+                o.setdefault('cleavage_exception', 'auto')
+                fasta, table = cv_run.run_call_variant(threads=1, **o)
+            elif inp['cmd'] == 'callNovelORF':
+                fasta, _ = cv_run.run_call_novel_orf(**o)
+            else:
+                fasta = cv_run.run_call_alt_translation(**o)
+        except Exception as ex:      # the command aborted: nothing was written, so nothing to check here
+            self.aborted = getattr(self, 'aborted', []) + [dict(input=inp, error=f'{type(ex).__name__}: {ex}'[:120])]
+            return None
+        rule = o.get('cleavage_rule', 'trypsin')
+        exc = pyspec.resolve_exception(rule, o.get('cleavage_exception', 'trypsin_exception' if inp['cmd'] != 'callVariant' else 'auto'))
+        mc, lo, hi, mw = int(o.get('miscleavage', '2')), o.get('min_length', 7), o.get('max_length', 25), float(o.get('min_mw', '500.'))
+        canon = self.canon(rule, exc, mc, lo, hi, mw)
+        seqs = list(fasta.values())
+        if len(set(seqs)) != len(seqs):
+            return dict(observed='a sequence occurs twice in the FASTA', expected='each sequence exactly once')
+        for h, s in fasta.items():
+            if 'X' in s or '*' in s:
+                return dict(observed=dict(header=h, seq=s), expected='no X or stop symbol')
+            if not (lo <= len(s) <= hi) or pyspec.mol_weight(s) < mw:
+                return dict(observed=dict(header=h, seq=s, len=len(s)), expected=f'length in [{lo},{hi}] and mass >= {mw}')
+            if s in canon:
+                return dict(observed=dict(header=h, seq=s), expected='not in the canonical pool (incl. I->L images) for the same settings')
+        entries = [e for h in fasta for e in h.split(' ')]
+        if len(set(entries)) != len(entries):
+            return dict(observed='a header entry occurs twice', expected='header entries unique in the FASTA')
+        if table is not None:
+            pairs_f = {(s, e) for h, s in fasta.items() for e in h.split(' ')}
+            pairs_t = set()
+            for row in table:
+                if len(row) < 5:
+                    return dict(observed=row, expected='table row with >= 5 columns')
+                s, hdr, sub, a, b = row[0], row[1], row[2], int(row[3]), int(row[4])
+                if s[a:b] != sub:
+                    return dict(observed=dict(row=row[:5]), expected='sub-sequence column = stated slice of the peptide')
+                pairs_t.add((s, hdr))
+            if pairs_t != pairs_f:
+                return dict(observed=dict(only_table=sorted(pairs_t - pairs_f)[:3], only_fasta=sorted(pairs_f - pairs_t)[:3]),
+                            expected='table lists exactly the (sequence, header entry) pairs of the FASTA')
+        return None
+
+
+NATIVE = [NativeHygiene()]
